@@ -36,8 +36,8 @@ RULE = ('gcirc: one case = one ordered pair (base grid point, nominal separation
         'consecutive calls on identical data with changing latitude / units keyword (same array object, equal copies, scalars); '
         'non-trivial when the keyword changes. Distinct = distinct lattice indices / (array, sequence, mode).')
 ASSUMPTIONS = [
-    'gcirc agrees with the vector formula to 1e-6 * d + 1e-9 arcsec: coordinates in degrees are quantised at ulp(360) = 2e-10 arcsec, '
-    'so a purely relative bound below ~0.2 mas cannot be met by any float64 implementation (DESIGN.md C18)',
+    'gcirc agrees with the vector formula to 1e-6 * d plus an allowance of a few ulps of the coordinates passed (see below); coordinates '
+    'in degrees are quantised at ulp(360) = 2e-10 arcsec, so a purely relative bound cannot be met at large RA by any float64 implementation',
     'positions recovered through arcsin/arccos carry the conditioning error min(sqrt(16 eps), 8 eps tan|lat|) (<= 0.012 arcsec, only '
     'within ~1 arcsec of latitude +-90 deg); round trips and preserved separations are compared with that allowance',
     'symmetry of gcirc is demanded to the same tolerance as the value; zero for identical points is demanded exactly',
@@ -49,6 +49,11 @@ ASSUMPTIONS = [
     'its own keyword; sequences of length 2 and 3, preceded by a fixed separator call',
     'gcirc in mixed calling conventions (scalar vs array in both orders, 0-d and length-1 arrays, Python lists) must return the '
     'broadcast shape and the values of the all-array call; the angle conversions are also run on every set of 1..5 points',
+    'gcirc allowance: 1e-6 * d + 4 ulp(larger |RA|) + 4 ulp(larger |Dec|) of the coordinates as passed in their convention '
+    '(replaces the fixed 1e-9 arcsec of earlier rounds: near RA = Dec = 0 and in radians the relative bound applies alone); '
+    'float32 input is held to float32 resolution only (64 eps32 relative, float32 coordinate ulps, sqrt(eps32) near 180 deg)',
+    'memory layouts (big-endian, float32, strided, Fortran order, read-only) and 2-D coordinate shapes must give the same '
+    'element-wise answers as plain 1-D native float64 arrays',
     'nothing is claimed between lattice points',
 ]
 
@@ -91,11 +96,44 @@ def bits_differ(a, b):
     return d.reshape(len(d), -1).any(axis=1) if d.ndim else np.array([bool(d)])
 
 
-def cond(lat_deg):
+def cond(lat_deg, eps=EPS):
     """Allowance (rad) for a latitude recovered from its sine / a colatitude from its cosine."""
     lat = np.abs(np.asarray(lat_deg, dtype=np.float64))
     t = np.tan(np.radians(np.minimum(lat, 90.0)))
-    return np.minimum(math.sqrt(16 * EPS), 8 * EPS * np.abs(t))
+    return np.minimum(math.sqrt(16 * eps), 8 * eps * np.abs(t))
+
+
+# memory layouts of an input array holding the same numbers
+LAYOUTS = ['be', 'f32', 'strided', 'fortran', 'readonly']
+EPS32 = float(np.finfo(np.float32).eps)
+
+
+def relayout(a, layout):
+    a = np.asarray(a, dtype=np.float64)
+    if layout == 'be':                      # big-endian, as FITS columns are
+        return a.astype('>f8')
+    if layout == 'f32':
+        return a.astype(np.float32)
+    if layout == 'strided':                 # every second element of a wider buffer
+        if a.ndim == 1:
+            b = np.zeros(2 * len(a))
+            b[::2] = a
+            return b[::2]
+        b = np.zeros(a.shape[:-1] + (2 * a.shape[-1],))
+        b[..., ::2] = a
+        return b[..., ::2]
+    if layout == 'fortran':
+        return np.asfortranarray(a)
+    if layout == 'readonly':
+        b = a.copy()
+        b.setflags(write=False)
+        return b
+    return a.copy()
+
+
+def values_of(w):
+    """The numbers an array holds, as native float64."""
+    return np.array(w, dtype=np.float64, copy=True)
 
 
 def destination(ra, dec, s_rad, pa_deg):
@@ -149,6 +187,22 @@ def gcirc_inputs(units, ra, dec):
     return np.radians(ra), np.radians(dec)
 
 
+GC_K = 4.0
+
+
+def gcirc_floor(units, a1, d1, a2, d2, eps32=False):
+    """Absolute allowance (rad) of gcirc: GC_K ulps of the larger |RA| plus GC_K ulps of the larger |Dec| *as passed in
+    the given convention*, converted to radians.  A float64 implementation cannot promise more than the resolution of
+    the coordinates it is handed (ulp(360 deg) = 2e-10 arcsec at large RA), but near RA = Dec = 0 -- and in the radian
+    convention generally -- micro-arcsecond differences are resolved and the stated relative 1e-6 applies alone."""
+    t = np.float32 if eps32 else np.float64
+    ra = np.maximum(np.abs(np.asarray(a1, dtype=np.float64)), np.abs(np.asarray(a2, dtype=np.float64))).astype(t)
+    de = np.maximum(np.abs(np.asarray(d1, dtype=np.float64)), np.abs(np.asarray(d2, dtype=np.float64))).astype(t)
+    ura = {0: 1.0, 1: 15.0 * math.pi / 180.0, 2: math.pi / 180.0}[units]
+    ude = 1.0 if units == 0 else math.pi / 180.0
+    return GC_K * (np.spacing(ra).astype(np.float64) * ura + np.spacing(de).astype(np.float64) * ude)
+
+
 def gcirc_truth(units, a1, d1, a2, d2):
     """Separation (rad, longdouble) of the points as passed in the given convention."""
     def v(a, d):
@@ -189,7 +243,7 @@ def gcirc_check(units, form, p1, p2, same):
     truth = gcirc_truth(units, a1, d1, a2, d2)                    # rad
     scale = 1.0 if units == 0 else 1.0 / ARCSEC                   # output unit per rad
     T = (truth * LD(scale)).astype(np.float64)
-    tol = REL * T + FLOOR * scale
+    tol = REL * T + gcirc_floor(units, a1, d1, a2, d2) * scale
     top = math.pi * scale
     u = ':units=%d' % units
     nan = np.isnan(g12) | np.isnan(g21)
@@ -205,6 +259,45 @@ def gcirc_check(units, form, p1, p2, same):
         res.append(('gcirc:repeat-call-differs' + u, repeat & ~modified))
     msgs = (g12, g21, T)
     return [(s, m, msgs) for s, m in res if m.any()], g12 / scale
+
+
+def gcirc_layout_check(units, layout, p1, p2):
+    """The four coordinate arrays handed over in another memory layout (same numbers; float32: the rounded numbers)."""
+    from pydl.goddard.astro import gcirc
+    a1, d1 = gcirc_inputs(units, p1[:, 0], p1[:, 1])
+    a2, d2 = gcirc_inputs(units, p2[:, 0], p2[:, 1])
+    w = [relayout(v, layout) for v in (a1, d1, a2, d2)]
+    a1, d1, a2, d2 = [values_of(v) for v in w]
+    n = len(a1)
+    u = ':layout=%s:units=%d' % (layout, units)
+    try:
+        g = gcirc(w[0], w[1], w[2], w[3], units=units)
+    except Exception as e:  # noqa: BLE001
+        return [('gcirc:exception:%s%s' % (type(e).__name__, u), np.ones(n, dtype=bool), repr(e))]
+    if np.shape(g) != (n,):
+        return [('gcirc:result-shape' + u, np.ones(n, dtype=bool), 'shape %s' % (np.shape(g),))]
+    g = values_of(g)
+    out = []
+    mod = np.zeros(n, dtype=bool)
+    for orig, work in zip((a1, d1, a2, d2), w):
+        mod |= bits_differ(orig, values_of(work))
+    if mod.any():
+        out.append(('gcirc:input-modified' + u, mod, 'caller array changed'))
+    scale = 1.0 if units == 0 else 1.0 / ARCSEC
+    T = (gcirc_truth(units, a1, d1, a2, d2) * LD(scale)).astype(np.float64)
+    if layout == 'f32':
+        # float32 arithmetic: relative 64 eps32, the resolution of float32 coordinates, and the conditioning of
+        # arcsin near 180 deg in float32
+        tol = 64 * EPS32 * T + 4 * gcirc_floor(units, a1, d1, a2, d2, eps32=True) * scale + \
+            np.where(T > 3.0 * scale, 4 * math.sqrt(EPS32) * scale, 0.0)
+    else:
+        tol = REL * T + gcirc_floor(units, a1, d1, a2, d2) * scale
+    same = (a1 == a2) & (d1 == d2)
+    bad = ~same & ~(np.abs(g - T) <= tol)
+    if bad.any():
+        k = int(np.nonzero(bad)[0][0])
+        out.append(('gcirc:value' + u, bad, 'pair %s %s: %r, vector formula %r' % ([a1[k], d1[k]], [a2[k], d2[k]], g[k], T[k])))
+    return out
 
 
 MIXED_FORMS = ['scalar-array', 'array-scalar', '0d-array', 'len1-array', 'list-list', 'list-scalar', '0d-0d']
@@ -248,7 +341,7 @@ def gcirc_mixed_check(units, form, p1, P2):
     ref = np.asarray(gcirc(a1[:m].copy(), d1[:m].copy(), a2[:m].copy(), d2[:m].copy(), units=units), dtype=np.float64)
     scale = 1.0 if units == 0 else 1.0 / ARCSEC
     T = (gcirc_truth(units, a1[:m], d1[:m], a2[:m], d2[:m]) * LD(scale)).astype(np.float64)
-    tol = REL * T + FLOOR * scale
+    tol = REL * T + gcirc_floor(units, a1[:m], d1[:m], a2[:m], d2[:m]) * scale
     out = []
     bad = ~(np.abs(g - ref) <= tol)
     if bad.any():
@@ -270,7 +363,11 @@ def _frame_bits_differ(s0, s1):
     return bits_differ(np.atleast_1d(s0[0]), np.atleast_1d(s1[0])) | bits_differ(np.atleast_1d(s0[1]), np.atleast_1d(s1[1]))
 
 
-def _transform(stripe, route, form, ra, dec, direction='icrs->munu', side=None):
+class ShapeMismatch(Exception):
+    pass
+
+
+def _transform(stripe, route, form, ra, dec, direction='icrs->munu', side=None, shape=None, layout=None):
     """direction 'icrs->munu': -> mu, nu, ra_back, dec_back; 'munu->icrs': input is (mu, nu) -> ra, dec, mu_back, nu_back
     (float64 arrays, degrees)."""
     import astropy.coordinates as ac
@@ -293,19 +390,31 @@ def _transform(stripe, route, form, ra, dec, direction='icrs->munu', side=None):
         side[name + ':repeat-call-differs'] = _frame_bits_differ(_snap(out), _snap(f(fr)))
         return out
 
+    def q(v):
+        # coordinates in another memory layout are handed over without a copy
+        return u.Quantity(v, u.deg, copy=False) if layout else v * u.deg
+
     def one(r, d):
         if direction == 'munu->icrs':
-            m = SDSSMuNu(mu=r * u.deg, nu=d * u.deg, stripe=stripe)
+            m = SDSSMuNu(mu=q(r), nu=q(d), stripe=stripe, copy=not layout)
             b = step('munu_to_radec', to_icrs, m)
             m2 = step('radec_to_munu', to_munu, b)
             return b.ra.deg, b.dec.deg, m2.mu.deg, m2.nu.deg
-        icrs = ac.ICRS(ra=r * u.deg, dec=d * u.deg)
+        icrs = ac.ICRS(ra=q(r), dec=q(d), copy=not layout)
         m = step('radec_to_munu', to_munu, icrs)
         b = step('munu_to_radec', to_icrs, m)
         return m.mu.deg, m.nu.deg, b.ra.deg, b.dec.deg
     if form == 'array':
-        r = one(np.asarray(ra, dtype=np.float64), np.asarray(dec, dtype=np.float64))
-        return tuple(np.asarray(v, dtype=np.float64) for v in r)
+        rin, din = np.asarray(ra, dtype=np.float64), np.asarray(dec, dtype=np.float64)
+        if shape is not None:
+            rin, din = rin.reshape(shape), din.reshape(shape)
+        if layout:
+            rin, din = relayout(rin, layout), relayout(din, layout)
+        r = [np.asarray(v, dtype=np.float64) for v in one(rin, din)]
+        for v in r:
+            if v.shape != rin.shape:
+                raise ShapeMismatch('coordinates of shape %s give a result of shape %s' % (rin.shape, v.shape))
+        return tuple(v.ravel() for v in r)
     outs = [one(float(r), float(d)) for r, d in zip(ra, dec)]
     return tuple(np.array([float(o[i]) for o in outs], dtype=np.float64) for i in range(4))
 
@@ -340,17 +449,29 @@ def circle_point(incl_deg, t_deg, node_deg=95.0):
     return np.cos(t)[:, None] * N[None, :] + np.sin(t)[:, None] * M[None, :]
 
 
-def munu_points_check(stripe, route, form, P, pairs, triples, direction='icrs->munu'):
+def munu_points_check(stripe, route, form, P, pairs, triples, direction='icrs->munu', shape=None, layout=None):
+    res, vals = _munu_points_check(stripe, route, form, P, pairs, triples, direction, shape, layout)
+    xt = (':shape=%s' % (tuple(shape),) if shape is not None else '') + (':layout=%s' % layout if layout else '')
+    return [(sg + xt, k, i, m) for sg, k, i, m in res], vals
+
+
+def _munu_points_check(stripe, route, form, P, pairs, triples, direction, shape, layout):
     """P: (n,2) RA/Dec (or mu/nu for direction 'munu->icrs'); pairs: (m,2) index pairs for the isometry clause;
     triples: (k,3) for handedness.  -> list of (sig, kind, failing indices, msg)."""
     out = []
     first, second = ('radec_to_munu', 'munu_to_radec') if direction == 'icrs->munu' else ('munu_to_radec', 'radec_to_munu')
     dtag = '' if direction == 'icrs->munu' else ':munu->icrs'
+    eps = EPS32 if layout == 'f32' else EPS
+    base = 64 * EPS32 if layout == 'f32' else 5 * FLOOR
+    if layout == 'f32':
+        P = P.astype(np.float32).astype(np.float64)
     try:
-        side = {} if form == 'array' else None
-        mu, nu, rb, db = _transform(stripe, route, form, P[:, 0], P[:, 1], direction, side)
+        side = {} if (form == 'array' and shape is None and layout is None) else None
+        mu, nu, rb, db = _transform(stripe, route, form, P[:, 0], P[:, 1], direction, side, shape, layout)
+    except ShapeMismatch as e:
+        return [('munu:result-shape:%s%s' % (route, dtag), 'all', np.array([0]), str(e))], None
     except Exception as e:  # noqa: BLE001
-        return [('munu:exception:%s:%s' % (type(e).__name__, route), 'all', np.array([0]), repr(e))], None
+        return [('munu:exception:%s:%s%s' % (type(e).__name__, route, dtag), 'all', np.array([0]), repr(e))], None
     pole = np.abs(P[:, 1]) > 90.0 - 1.0e-6       # within 3.6 mas of a celestial pole: sin(dec) can round to 1
     spole = np.abs(nu) > 90.0 - 1.0e-6           # same for the poles of the stripe's own system
     nan_f = np.isnan(mu) | np.isnan(nu)
@@ -386,7 +507,7 @@ def munu_points_check(stripe, route, form, P, pairs, triples, direction='icrs->m
     vB = vec(rb, db)
     # round trip
     rt = sep(vP, vB).astype(np.float64)
-    tol = 5 * FLOOR + cond(nu) + cond(db)
+    tol = base + cond(nu, eps) + cond(db, eps)
     bad = good & (rt > tol)
     if bad.any():
         out.append(('munu:round-trip' + dtag, 'point', np.nonzero(bad)[0], 'returns %.3g arcsec away' % (rt[bad].max() / ARCSEC)))
@@ -395,7 +516,7 @@ def munu_points_check(stripe, route, form, P, pairs, triples, direction='icrs->m
         i, j = pairs[:, 0], pairs[:, 1]
         s0 = sep(vP[i], vP[j]).astype(np.float64)
         s1 = sep(vM[i], vM[j]).astype(np.float64)
-        tol = REL * s0 + 5 * FLOOR + cond(nu[i]) + cond(nu[j])
+        tol = REL * s0 + base + cond(nu[i], eps) + cond(nu[j], eps)
         bad = good[i] & good[j] & (np.abs(s1 - s0) > tol)
         if bad.any():
             k = np.nonzero(bad)[0]
@@ -457,65 +578,71 @@ def circle_check(stripe, route, t_deg):
 
 
 # ------------------------------------------------------------------------------------------ angles
-def angles_check(latitude, A):
-    """A: (n,2) angles (phi, theta or RA, Dec).  -> list of (sig, failing indices, msg)."""
+def angles_check(latitude, A, layout=None):
+    """A: (n,2) angles (phi, theta or RA, Dec), optionally handed over in another memory layout.
+    -> list of (sig, failing indices, msg)."""
     import pydl.pydlutils.mangle as mng
     out = []
-    A = np.asarray(A, dtype=np.float64)
-    lat = A[:, 1] if latitude else 90.0 - A[:, 1]
-    lt = ':latitude=%s' % latitude
+    lt = ':latitude=%s' % latitude + (':layout=%s' % layout if layout else '')
+    eps = EPS32 if layout == 'f32' else EPS
+    base = 64 * EPS32 if layout == 'f32' else 5 * FLOOR
     try:
-        WA = A.copy()                                   # the caller's angle array
+        WA = relayout(A, layout)                        # the caller's angle array
+        A = values_of(WA)
         X = mng.angles_to_x(WA, latitude=latitude)
-        modA = bits_differ(A, WA)
+        modA = bits_differ(A, values_of(WA))
         if modA.any():
             out.append(('angles_to_x:input-modified' + lt, np.nonzero(modA)[0],
-                        'caller array %s became %s' % (A[modA][0].tolist(), WA[modA][0].tolist())))
-            X = mng.angles_to_x(A.copy(), latitude=latitude)
+                        'caller array %s became %s' % (A[modA][0].tolist(), values_of(WA)[modA][0].tolist())))
+            X = mng.angles_to_x(relayout(A, layout), latitude=latitude)
         else:
-            rep = bits_differ(X, mng.angles_to_x(WA, latitude=latitude))
+            rep = bits_differ(values_of(X), values_of(mng.angles_to_x(WA, latitude=latitude)))
             if rep.any():
                 out.append(('angles_to_x:repeat-call-differs' + lt, np.nonzero(rep)[0], 'second call on the same array'))
-        WX = X.copy()                                   # the caller's vector array
+        X = values_of(X)
+        WX = relayout(X, layout)                        # the caller's vector array
+        X = values_of(WX)
         B = mng.x_to_angles(WX, latitude=latitude)
-        modX = bits_differ(X, WX)
+        modX = bits_differ(X, values_of(WX))
         if modX.any():
             out.append(('x_to_angles:input-modified' + lt, np.nonzero(modX)[0],
-                        'caller array %s became %s' % (X[modX][0].tolist(), WX[modX][0].tolist())))
-            B = mng.x_to_angles(X.copy(), latitude=latitude)
+                        'caller array %s became %s' % (X[modX][0].tolist(), values_of(WX)[modX][0].tolist())))
+            B = mng.x_to_angles(relayout(X, layout), latitude=latitude)
         else:
-            rep = bits_differ(B, mng.x_to_angles(WX, latitude=latitude))
+            rep = bits_differ(values_of(B), values_of(mng.x_to_angles(WX, latitude=latitude)))
             if rep.any():
                 out.append(('x_to_angles:repeat-call-differs' + lt, np.nonzero(rep)[0], 'second call on the same array'))
-        X2 = mng.angles_to_x(B.copy(), latitude=latitude)
+        B = values_of(B)
+        X2 = values_of(mng.angles_to_x(relayout(B, layout), latitude=latitude))
     except Exception as e:  # noqa: BLE001
-        return [('angles:exception:%s' % type(e).__name__, np.array([0]), repr(e))]
+        return [('angles:exception:%s%s' % (type(e).__name__, ':layout=%s' % layout if layout else ''), np.array([0]), repr(e))]
+    lat = A[:, 1] if latitude else 90.0 - A[:, 1]
+    sfx = ':layout=%s' % layout if layout else ''
     if X.shape != (len(A), 3) or B.shape != (len(A), 2):
-        return [('angles:result-shape', np.array([0]), '%s %s' % (X.shape, B.shape))]
+        return [('angles:result-shape' + sfx, np.array([0]), '%s %s' % (X.shape, B.shape))]
     nanx = np.isnan(X).any(axis=1)
     nanb = np.isnan(B).any(axis=1) & ~nanx
     if nanx.any():
-        out.append(('angles_to_x:nan', np.nonzero(nanx)[0], 'NaN component'))
+        out.append(('angles_to_x:nan' + sfx, np.nonzero(nanx)[0], 'NaN component'))
     if nanb.any():
-        out.append(('x_to_angles:nan', np.nonzero(nanb)[0], 'NaN angle for a unit vector'))
+        out.append(('x_to_angles:nan' + sfx, np.nonzero(nanb)[0], 'NaN angle for a unit vector'))
     good = ~(nanx | nanb)
     norm = np.sqrt((X.astype(LD) ** 2).sum(axis=1)).astype(np.float64)
-    bad = ~nanx & (np.abs(norm - 1) > 1e-12)
+    bad = ~nanx & (np.abs(norm - 1) > (1e-12 if layout != 'f32' else 16 * EPS32))
     if bad.any():
-        out.append(('angles_to_x:not-a-unit-vector', np.nonzero(bad)[0], 'norm %r' % norm[bad][0]))
+        out.append(('angles_to_x:not-a-unit-vector' + sfx, np.nonzero(bad)[0], 'norm %r' % norm[bad][0]))
     latB = B[:, 1] if latitude else 90.0 - B[:, 1]
     # angles -> x -> angles is the same direction (RA modulo 360)
     d = sep(vec(A[:, 0], lat), vec(B[:, 0], latB)).astype(np.float64)
-    bad = good & (d > 5 * FLOOR + cond(lat))
+    bad = good & ~(d <= base + cond(lat, eps))
     if bad.any():
-        out.append(('x_to_angles(angles_to_x):not-inverse', np.nonzero(bad)[0],
-                    'direction moves by %.3g arcsec' % (d[bad].max() / ARCSEC)))
+        out.append(('x_to_angles(angles_to_x):not-inverse' + sfx, np.nonzero(bad)[0],
+                    'direction moves by %.3g arcsec' % (np.nanmax(d[bad]) / ARCSEC)))
     # x -> angles -> x returns the vector
     dx = np.sqrt(((X2 - X) ** 2).sum(axis=1))
-    bad = good & ~np.isnan(dx) & (dx > 5 * FLOOR + cond(lat))
-    bad |= good & np.isnan(dx)
+    bad = good & ~(dx <= base + cond(lat, eps))
     if bad.any():
-        out.append(('angles_to_x(x_to_angles):not-inverse', np.nonzero(bad)[0], 'vector moves by %.3g' % np.nanmax(dx[bad])))
+        out.append(('angles_to_x(x_to_angles):not-inverse' + sfx, np.nonzero(bad)[0], 'vector moves by %.3g' % np.nanmax(dx[bad])))
     return out
 
 
@@ -540,13 +667,25 @@ def angle_lattice(latitude, T):
 
 
 # ------------------------------------------------------------------------------------------ lattice for gcirc / munu
+# base points at small |RA|, |Dec| (degrees): there micro-arcsecond steps are resolved by float64 in every convention and
+# the stated relative 1e-6 applies without an absolute floor
+SMALL_RA = [0.0, 2.0 ** -30, 2.0 ** -20, 1.0e-7, 1.0e-4, 2.0 ** -10]
+SMALL_DEC = [0.0, 2.0 ** -20, -2.0 ** -20, 1.0e-5, -1.0e-5, 1.0e-3, -0.5]
+
+
+def gcirc_bases(col, nra, ndec):
+    if col < 0:                 # the small-|RA| columns: col = -1 - index
+        ra = SMALL_RA[-1 - col]
+        return [(ra, dec) for dec in SMALL_DEC]
+    return [(360.0 * col / nra, -90.0 + 180.0 * j / (ndec - 1)) for j in range(ndec)]
+
+
 def gcirc_pairs(col, nra, ndec, kstep, npa):
-    """All pairs whose base point lies in RA column `col` of the grid."""
+    """All pairs whose base point lies in RA column `col` of the grid (col < 0: small-|RA| column)."""
     P1, P2, same, keys = [], [], [], []
     seps = sep_menu(kstep)
-    for j in range(ndec):
-        ra = 360.0 * col / nra
-        dec = -90.0 + 180.0 * j / (ndec - 1)
+    colkey = col if col >= 0 else 1000 - col
+    for j, (ra, dec) in enumerate(gcirc_bases(col, nra, ndec)):
         for si, (name, s) in enumerate(seps):
             for a in range(npa):
                 pa = 360.0 * a / npa + 10.0
@@ -562,7 +701,7 @@ def gcirc_pairs(col, nra, ndec, kstep, npa):
                 P1.append((ra, dec))
                 P2.append(q)
                 same.append(q == (ra, dec))
-                keys.append((col * 64 + j) * 4096 + si * 32 + a)
+                keys.append((colkey * 64 + j) * 4096 + si * 32 + a)
     return np.array(P1), np.array(P2), np.array(same, dtype=bool), np.array(keys, dtype=np.uint64)
 
 
@@ -582,6 +721,11 @@ def munu_lattice(T):
         pairs.append((g, (g + 7 * ndec + 3) % n))         # far pairs across the grid
     triples = [(g, (g + 5 * ndec + 2) % n, (g + 11 * ndec + 5) % n) for g in range(n)]
     return np.array(P, dtype=np.float64), np.array(pairs, dtype=np.int64), np.array(triples, dtype=np.int64)
+
+
+# a small generic (non-symmetric) set of sky positions for the shape / layout variants
+MUNU_SMALL = np.array([((41.7 * i + 3.3) % 360.0, -71.0 + 143.0 * ((i * 0.6180339887498949) % 1.0)) for i in range(12)],
+                      dtype=np.float64)
 
 
 def stripe_pole_points(incl):
@@ -690,7 +834,7 @@ def hist_gcirc(C, seq, same, form):
     for un in (0, 1, 2):
         scale = 1.0 if un == 0 else 1.0 / ARCSEC
         T = (gcirc_truth(un, C[:, 0], C[:, 1], C[:, 2], C[:, 3]) * LD(scale)).astype(np.float64)
-        truth[un] = (T, REL * T + FLOOR * scale)
+        truth[un] = (T, REL * T + gcirc_floor(un, C[:, 0], C[:, 1], C[:, 2], C[:, 3]) * scale)
     for k, un in enumerate(seq):
         if form == 'array':
             args = W if same else [C[:, i].copy() for i in range(4)]
@@ -770,6 +914,8 @@ def tasks(tier):
     nra, ndec = (72, 37) if T else (24, 13)
     for col in range(nra):
         t.append({'layer': 'gcirc', 'col': col, 'nra': nra, 'ndec': ndec, 'kstep': 0.25 if T else 1.0, 'npa': 8})
+    for i in range(len(SMALL_RA)):
+        t.append({'layer': 'gcirc', 'col': -1 - i, 'nra': nra, 'ndec': ndec, 'kstep': 0.25 if T else 1.0, 'npa': 8})
     per = 1 if T else 3
     for s0 in range(0, 90, per):
         t.append({'layer': 'munu', 'stripes': list(range(s0, s0 + per)), 'T': T})
@@ -822,12 +968,27 @@ def run_gcirc(acc, task):
             if form == 'array' and g is not None:
                 ref[units] = g
     run_gcirc_mixed(acc, task)
+    for layout in ('be', 'f32', 'strided', 'readonly'):
+        for units in (2, 1, 0):
+            res = gcirc_layout_check(units, layout, P1, P2)
+            fails = {}
+            for sig, m, msg in res:
+                fails[sig] = m
+                idx = np.nonzero(m)[0]
+                sel = sorted(set([int(idx[0])] + [0, len(P1) // 2]))
+                acc.violation(sig, {'layer': 'gcirc-layout', 'units': units, 'layout': layout,
+                                    'p1': P1[sel].tolist(), 'p2': P2[sel].tolist()}, msg)
+                if len(idx) > 1:
+                    acc.viol_count[sig] += len(idx) - 1
+            kk = keys * np.uint64(64) + np.uint64(32 + LAYOUTS.index(layout) * 4 + units)
+            _bulk(acc, kk, ~same, 'gcirc:layout=%s:units=%d' % (layout, units), fails)
     # the three conventions agree with each other
     if 2 in ref:
         T = gcirc_truth(2, P1[:, 0], P1[:, 1], P2[:, 0], P2[:, 1]).astype(np.float64)
         for u in (1, 0):
             if u in ref:
-                m = ~np.isnan(ref[2]) & ~np.isnan(ref[u]) & (np.abs(ref[2] - ref[u]) > 2 * REL * T + 3 * FLOOR)
+                fl = _cross_floor(u, P1, P2)
+                m = ~np.isnan(ref[2]) & ~np.isnan(ref[u]) & (np.abs(ref[2] - ref[u]) > 2 * REL * T + fl)
                 sig = 'gcirc:unit-conventions-disagree:units=%d-vs-2' % u
                 idx = np.nonzero(m)[0]
                 for i in idx[:3]:
@@ -838,10 +999,22 @@ def run_gcirc(acc, task):
                 _bulk(acc, keys * np.uint64(8) + np.uint64(6 + u), ~same, 'gcirc:units=%d-vs-2' % u, {sig: m} if m.any() else {})
 
 
+def _cross_floor(u, P1, P2):
+    """Allowance (rad) when the same points are passed in convention u and in degrees: both floors, plus the rounding
+    of the conversion of the coordinates themselves (one more ulp each, contained in the factor GC_K)."""
+    out = 0.0
+    for un in (2, u):
+        a1, d1 = gcirc_inputs(un, P1[:, 0], P1[:, 1])
+        a2, d2 = gcirc_inputs(un, P2[:, 0], P2[:, 1])
+        out = out + gcirc_floor(un, a1, d1, a2, d2)
+    return out
+
+
 def run_gcirc_mixed(acc, task):
     P1, P2, _same, keys = gcirc_pairs(task['col'], task['nra'], task['ndec'], task['kstep'], task['npa'])
-    per = len(P1) // task['ndec']
-    for j in range(task['ndec']):
+    nb = len(gcirc_bases(task['col'], task['nra'], task['ndec']))
+    per = len(P1) // nb
+    for j in range(nb):
         p1 = P1[j * per].tolist()
         Q = P2[j * per:(j + 1) * per]
         for units in (2, 1, 0):
@@ -919,18 +1092,38 @@ def run_munu(acc, task):
                   'munu:%s:circle' % route, cf)
         # scalar frames: the poles and two ordinary points
         S = np.array([P[i] for i in npole[:2]] + [(95.0, 0.0), (10.0, 33.0)])
-        res, _vals = munu_points_check(stripe, 'graph', 'scalar', S, np.array([[2, 3]]), np.zeros((0, 3), dtype=np.int64))
-        sf = {}
-        for sig, kind, idx, msg in res:
-            m = np.zeros(len(S), dtype=bool)
-            m[idx if kind == 'point' else [0]] = True
-            sf[sig] = m
-            for i in idx[:3]:
-                pts = _case_pts(S, [i]) if kind == 'point' else _case_pts(S, [2, 3])
-                acc.violation(sig, {'layer': 'munu', 'stripe': stripe, 'route': 'graph', 'form': 'scalar', 'kind': kind,
-                                    'pts': pts}, 'stripe %d (incl %g): %s' % (stripe, incl, msg))
-        _bulk(acc, np.uint64((stripe * 4) << 32) + np.uint64(4 << 28) + np.arange(len(S)).astype(np.uint64),
-              np.full(len(S), nt), 'munu:graph:scalar', sf)
+        for ri, route in enumerate(('graph', 'direct')):
+            res, _vals = munu_points_check(stripe, route, 'scalar', S, np.array([[2, 3]]), np.zeros((0, 3), dtype=np.int64))
+            sf = {}
+            for sig, kind, idx, msg in res:
+                m = np.zeros(len(S), dtype=bool)
+                m[idx if kind == 'point' else [0]] = True
+                sf[sig] = m
+                for i in idx[:3]:
+                    pts = _case_pts(S, [i]) if kind == 'point' else _case_pts(S, [2, 3])
+                    acc.violation(sig, {'layer': 'munu', 'stripe': stripe, 'route': route, 'form': 'scalar', 'kind': kind,
+                                        'pts': pts}, 'stripe %d (incl %g): %s' % (stripe, incl, msg))
+            _bulk(acc, np.uint64((stripe * 4 + ri) << 32) + np.uint64(4 << 28) + np.arange(len(S)).astype(np.uint64),
+                  np.full(len(S), nt), 'munu:%s:scalar' % route, sf)
+        # coordinate arrays with two dimensions, and one-dimensional arrays in other memory layouts
+        S12 = MUNU_SMALL
+        pr = np.array([[i, i + 1] for i in range(0, 11)])
+        for route in ('graph', 'direct'):
+            variants = [(direction, shape, None) for direction in ('icrs->munu', 'munu->icrs')
+                        for shape in ((3, 4), (4, 3), (2, 2), (1, 5))]
+            variants += [('icrs->munu', (3, 4) if layout == 'fortran' else None, layout) for layout in LAYOUTS]
+            for direction, shape, layout in variants:
+                npt = int(np.prod(shape)) if shape is not None else len(S12)
+                Q = S12[:npt]
+                res, _vals = munu_points_check(stripe, route, 'array', Q, pr[pr[:, 1] < npt], np.zeros((0, 3), dtype=np.int64),
+                                               direction, shape, layout)
+                acc.case(('munu-shape', stripe, route, direction, shape, layout), nt,
+                         'ok:munu:%s:%s' % (route, 'shape=%s' % (shape,) if layout is None else 'layout=%s' % layout)
+                         if not res else 'bad:' + res[0][0])
+                for sig, kind, idx, msg in res:
+                    acc.violation(sig, {'layer': 'munu', 'stripe': stripe, 'route': route, 'form': 'array', 'kind': 'pairs',
+                                        'pts': Q.tolist(), 'direction': direction, 'shape': shape, 'layout': layout},
+                                  'stripe %d (incl %g): %s' % (stripe, incl, msg))
 
 
 def small_angle_sets(latitude, T):
@@ -954,6 +1147,20 @@ def run_angles(acc, task):
         for sig, _idx, msg in res:
             acc.violation(sig + ':%d-points' % n, {'layer': 'angles', 'latitude': lat, 'a': S.tolist(), 'npoints': n}, msg)
     A = angle_lattice(lat, task['T'])
+    for layout in LAYOUTS:
+        res = angles_check(lat, A, layout)
+        fails = {}
+        for sig, idx, msg in res:
+            m = np.zeros(len(A), dtype=bool)
+            m[idx] = True
+            fails[sig] = m
+            i0 = int(idx[0])
+            acc.violation(sig, {'layer': 'angles', 'latitude': lat, 'layout': layout,
+                                'a': A[max(0, i0 - 1):i0 + 2].tolist()}, msg)
+            if len(idx) > 1:
+                acc.viol_count[sig] += len(idx) - 1
+        keys = np.uint64(((2 + LAYOUTS.index(layout)) * 2 + (1 if lat else 0)) << 40) + np.arange(len(A)).astype(np.uint64)
+        _bulk(acc, keys, (A[:, 0] % 360.0) != 0.0, 'angles:latitude=%s:layout=%s' % (lat, layout), fails)
     res = angles_check(lat, A)
     fails = {}
     for sig, idx, msg in res:
@@ -1002,6 +1209,10 @@ def replay(case):
         res, _g = gcirc_check(case['units'], case['form'], p1, p2, same)
         return [(s, 'gcirc -> %r / reversed %r, vector formula %r' % tuple(float(x[0]) for x in msgs) if msgs else '')
                 for s, _m, msgs in res]
+    if layer == 'gcirc-layout':
+        res = gcirc_layout_check(case['units'], case['layout'], np.array(case['p1'], dtype=np.float64),
+                                 np.array(case['p2'], dtype=np.float64))
+        return [(sg, m) for sg, _mask, m in res]
     if layer == 'gcirc-mixed':
         return gcirc_mixed_check(case['units'], case['form'], case['p1'], case['p2'])
     if layer == 'gcirc-units':
@@ -1013,7 +1224,7 @@ def replay(case):
         for u in (2, case['units']):
             _res, g[u] = gcirc_check(u, 'array', p1, p2, same)
         T = float(gcirc_truth(2, p1[:, 0], p1[:, 1], p2[:, 0], p2[:, 1])[0])
-        if abs(g[2][0] - g[case['units']][0]) > 2 * REL * T + 3 * FLOOR:
+        if abs(g[2][0] - g[case['units']][0]) > 2 * REL * T + _cross_floor(case['units'], p1, p2)[0]:
             out.append(('gcirc:unit-conventions-disagree:units=%d-vs-2' % case['units'], '%r vs %r rad'
                         % (float(g[case['units']][0]), float(g[2][0]))))
         return out
@@ -1021,13 +1232,16 @@ def replay(case):
         P = np.array(case['pts'], dtype=np.float64)
         kind = case.get('kind', 'point')
         pairs = np.array([[0, 1]]) if kind == 'pair' else np.zeros((0, 2), dtype=np.int64)
+        if kind == 'pairs':
+            pairs = np.array([[i, i + 1] for i in range(len(P) - 1)])
         triples = np.array([[0, 1, 2]]) if kind == 'triple' else np.zeros((0, 3), dtype=np.int64)
         res, _v = munu_points_check(case['stripe'], case['route'], case['form'], P, pairs, triples,
-                                    case.get('direction', 'icrs->munu'))
+                                    case.get('direction', 'icrs->munu'), case.get('shape'), case.get('layout'))
         return [(s, m) for s, _k, _i, m in res]
     if layer == 'circle':
         return [(s, m) for s, _k, _i, m in circle_check(case['stripe'], case['route'], case['t'])]
     if layer == 'angles':
         suffix = ':%d-points' % case['npoints'] if 'npoints' in case else ''
-        return [(s + suffix, m) for s, _i, m in angles_check(case['latitude'], np.array(case['a'], dtype=np.float64))]
+        return [(s + suffix, m) for s, _i, m in angles_check(case['latitude'], np.array(case['a'], dtype=np.float64),
+                                                               case.get('layout'))]
     raise ValueError('unknown layer %r' % layer)
